@@ -193,6 +193,10 @@ type Cron struct {
 	// running holds the jobs that have been taken off the Timeline
 	// and whose Fn is executing, so that Rem() can reach them.
 	running map[string]*CronJob
+
+	// suspended is true while the processing loop is suspended.  The
+	// timer stays stopped then, no matter who asks for a reset.
+	suspended bool
 }
 
 // NewCron creates a new Cron instanced.
@@ -213,7 +217,8 @@ func NewCron(broadcaster *CronBroadcaster, pause time.Duration, name string, lim
 		pause,
 		name,
 		limit,
-		make(map[string]*CronJob)}
+		make(map[string]*CronJob),
+		false}
 
 	return c, nil
 }
@@ -304,7 +309,7 @@ func (c *Cron) start(ctx *core.Context) error {
 	broadcast, suspendedByBroadcast := c.broadcaster.Get()
 	if suspendedByBroadcast {
 		suspendedLocally = true
-		c.stopTimerLocked()
+		c.suspend()
 	}
 LOOP:
 	for {
@@ -316,10 +321,10 @@ LOOP:
 			broadcast, suspendedByBroadcast = c.broadcaster.Get()
 			if suspendedByBroadcast {
 				suspendedLocally = true
-				c.stopTimerLocked()
+				c.suspend()
 			} else if suspendedLocally {
 				suspendedLocally = false
-				c.resetTimerLocked()
+				c.resume()
 			}
 
 		case command := <-c.control:
@@ -331,12 +336,12 @@ LOOP:
 				c.resetTimerLocked()
 			case "suspend":
 				suspendedLocally = true
-				c.stopTimerLocked()
+				c.suspend()
 				continue
 			case "resume":
 				if suspendedLocally {
 					suspendedLocally = false
-					c.resetTimerLocked()
+					c.resume()
 				}
 			case "kill":
 				// Danger.  Can't restart from the control channel.
@@ -355,6 +360,11 @@ LOOP:
 
 			now := time.Now()
 			c.Lock()
+			if c.suspended {
+				// (A tick that was already on its way.)
+				c.Unlock()
+				continue
+			}
 			if 0 < len(c.Timeline) {
 				job := c.Timeline[0]
 				ready := !now.Before(job.Next)
@@ -426,8 +436,30 @@ func (c *Cron) stopTimerLocked() {
 	c.Unlock()
 }
 
+// suspend stops the timer until resume.
+func (c *Cron) suspend() {
+	c.Lock()
+	c.suspended = true
+	c.timer.Stop()
+	c.Unlock()
+}
+
+// resume ends a suspension and aims the timer at the next job.
+func (c *Cron) resume() {
+	c.Lock()
+	c.suspended = false
+	c.resetTimer()
+	c.Unlock()
+}
+
 func (c *Cron) resetTimer() {
 	// Assumes we have the lock.
+	if c.suspended {
+		// Adding a job, the re-scheduling of a recurring job or
+		// the end of a pause must not wake a suspended loop.
+		c.timer.Stop()
+		return
+	}
 	if 0 < len(c.Timeline) {
 		next := c.Timeline[0].Next
 		c.timerTarget = next
